@@ -5,6 +5,10 @@ revoke-fault, revoke-crash, revoke-race) all speak this protocol. -/
 namespace Driver.Revoke
 open Obao Obao.Revoke
 
+def cubStr : CubKey → String
+  | .cid t => s!"c{t}"
+  | .salted t => s!"s{t}"
+
 def keyStr : Key → String
   | .id t => s!"id:{t}"
   | .acc t => s!"acc:{t}"
@@ -13,12 +17,12 @@ def keyStr : Key → String
   | .tl t => s!"tl:{t}"
   | .sl l => s!"sl:{l}"
   | .tix t l => s!"tix:{t}:{l}"
-  | .cub t k => s!"cub:{t}:{k}"
+  | .cub c k => s!"cub:{cubStr c}:{k}"
 
 def pfxStr : Pfx → String
   | .par p => s!"par:{p}"
   | .tix t => s!"tix:{t}"
-  | .cub t => s!"cub:{t}"
+  | .cub c => s!"cub:{cubStr c}"
 
 def opStr : Op → String
   | .get k => "g:" ++ keyStr k
@@ -50,7 +54,9 @@ def stateStr (s : St) : String :=
   let tl := toks.filterMap fun t => (s.tl t).map fun e => toString t ++ (if e then "*" else "")
   let sl := (List.range s.nextL).filterMap fun l => (s.sl l).map fun (t, e) => s!"{l}@{t}" ++ (if e then "*" else "")
   let tix := (List.range s.next).flatMap fun t => ((List.range s.nextL).filter (s.tix t)).map fun l => s!"{t}:{l}"
-  let cub := (List.range s.next).flatMap fun t => ((List.range s.kmax).filter (s.cub t)).map fun k => s!"{t}:{k}"
+  let cub := (List.range s.next).flatMap fun t =>
+    (((List.range s.kmax).filter (s.cub (.cid t))).map fun k => s!"c{t}:{k}") ++
+    (((List.range s.kmax).filter (s.cub (.salted t))).map fun k => s!"s{t}:{k}")
   let pend := (List.range s.next).flatMap fun t =>
     (match s.pend (.salted t) with | some b => [s!"s{t}:" ++ (if b then "T" else "F")] | none => []) ++
     (match s.pend (.raw t) with | some b => [s!"r{t}:" ++ (if b then "T" else "F")] | none => [])
@@ -109,6 +115,21 @@ def step (s : St) (fs : List String) : St × String :=
       let (s', out) := doReq s (.create r (o = 1) sk)
       (s', out ++ "|" ++ (if s'.next = n then "-" else toString n))
     | _, _, _ => (s, "bad-op")
+  | ["mkid", r, x, skey] =>
+    match r.toNat?, x.toNat?, skey.toNat? with
+    | some r, some x, some sk =>
+      if x > s.next then (s, "bad-op") else doReq s (.createId r x sk)
+    | _, _, _ => (s, "bad-op")
+  | ["cubread", t, k] => match t.toNat?, k.toNat? with
+    | some t, some k =>
+      let (s', out) := doReq s (.cubRead t k)
+      let present := match s.ids t with
+        | some e => match routerKey t e with
+          | some c => s.cub c k
+          | none => false
+        | none => false
+      (s', out ++ "|" ++ (if out.startsWith "ok" then (if present then "present" else "absent") else "-"))
+    | _, _ => (s, "bad-op")
   | ["renew", t] => match t.toNat? with
     | some t => doReq s (.renew t)
     | none => (s, "bad-op")
